@@ -26,7 +26,7 @@ ASSUMPTIONS = [
     "every selection is followed by on_yield for the selected agent with reset = (reason == RESET_CONSEC) (the property's own condition; C17_Starvation_needs_bookkeeping)",
     "config values reach next_turn/_derive_budgets through int(): modelled as missing / int / raises; the harness-side encoder enc_cfg maps bool, float, str, None explicitly",
     "budget and consumed maps handed to _should_yield hold ints (that is what _derive_budgets and run_turn construct)",
-    "total T1 work is clamped per active graph only (finding C17:t1budget:total_exceeds_slice_budget when recorded as known)",
+    "T1 slice budgets are non-negative for the total bound (C17_Budgets_bind_t1_pops/_iters); the T1 totals theorem is about Clem.T1.t1, the exact T1 model tied to t1_propagate by C12's correspondence (driver module HT1) and here by the threaded differential on the real code",
 ]
 CLAIM = {
     "text": ("Unbounded Lean theorems about the executed model of clematis/engine/scheduler.py and the orchestrator's yield decision: "
@@ -44,9 +44,9 @@ CLAIM = {
              "observed (stage_end, reason, consumed) and the record order; stage-side clamps (t1 pops/layers per graph, t2 k_used, t3 ops) are covered by "
              "correspondence only (monitors on the real t1_propagate / t2_semantic / deliberate / repeated real turns). "
              "Holds for the tree WITH proposed_fixes/C17_t2_cache_key_slice_cap.diff (on the pinned tree the T2 stage cache and the turn-level T2 cache serve "
-             "results computed under another t2_k: k_used exceeds the slice budget; corpus/C17 keeps the failing inputs). Open finding: slice budgets t1_pops / "
-             "t1_iters bind per active graph, totals exceed them and the == test in _should_yield then never fires (C17_Budgets_bind_partial + negation witness "
-             "C17_Budget_total_exceeds_witness; proposed_findings/C17.json). The decision depends on measured elapsed time by design (C17_Yield_depends_on_elapsed). "
+             "results computed under another t2_k: k_used exceeds the slice budget; corpus/C17 keeps the failing inputs). Slice budgets t1_pops / t1_iters bind the TOTALS t1_propagate reports (the quantities _should_yield tests): every active graph runs under what the "
+             "earlier graphs left (C17_Budgets_bind_t1_pops, C17_Budgets_bind_t1_iters on the exact T1 model; C17_Per_graph_clamp_alone_insufficient records why the "
+             "per-graph clamp of the pinned tree was not enough; holds WITH proposed_fixes/C17_t1_slice_budget_shared_across_graphs.diff, corpus/C17/stage.t1__total_* keep the failing inputs). The decision depends on measured elapsed time by design (C17_Yield_depends_on_elapsed). "
              "Not covered: duplicate agent ids for the bound (exactness and Pick only), float/None values inside the budgets map handed to _should_yield."),
     "technique": "Lean 4 proofs (potential-function induction over arbitrary histories of a nondeterministic spec relation + refinement of the exact model) + exact correspondence and Lean-evaluated monitors on the Python implementation",
     "design_ref": "DESIGN.md §4 C17",
